@@ -133,6 +133,23 @@ pub fn cmd_registry(args: &[String]) -> i32 {
         format!("{:?}", ch) == format!("TlsClientHelloContents {{ version: {:?}, random: {:?}, session_id: None, ciphers: {:?}, comp: {:?}, ext: None }}",
                                        TlsVersion(v as u16), tls_parser_hex(&R), vec![TlsCipherSuiteID(v as u16)], vec![TlsCompressionID(v as u8)])
     });
+    // the registry code of a PARSED extension (From<&TlsExtension>) is its wire type, for every type and every dispatcher
+    // (every GREASE point maps to the single Grease code)
+    for (which, f) in [("generic", parse_tls_extension as fn(&[u8]) -> IResult<&[u8], TlsExtension>), ("client", parse_tls_client_hello_extension), ("server", parse_tls_server_hello_extension)] {
+        conv(&mut out, "TlsExtensionType", &format!("from_parsed_extension_{}", which), 65535, |v| {
+            let head = [(v >> 8) as u8, v as u8];
+            for body in [&[0u8, 0][..], &[0, 1, 0], &[0, 2, 0, 0], &[0, 2, 3, 4], &[0, 3, 2, 3, 4], &[0, 4, 0, 2, 0, 23], &[0, 5, 1, 0, 0, 0, 0]] {
+                let mut input = head.to_vec();
+                input.extend_from_slice(body);
+                if let Ok((_, ext)) = f(&input) {
+                    let t = TlsExtensionType::from(&ext).0 as u32;
+                    let grease = v & 0x0f0f == 0x0a0a && (v >> 8) == (v & 0xff);
+                    if !(if grease { t == 0xfafa } else { t == v }) { return false; }
+                }
+            }
+            true
+        });
+    }
     conv(&mut out, "SignatureScheme", "hash_alg", 65535, |v| SignatureScheme(v as u16).hash_alg() as u32 == v >> 8);
     conv(&mut out, "SignatureScheme", "sign_alg", 65535, |v| SignatureScheme(v as u16).sign_alg() as u32 == v & 0xff);
     writeln!(out, "{}", json!({"kind":"reserved","rle": rle((0..=65535u32).map(|v| if SignatureScheme(v as u16).is_reserved() {"1".to_string()} else {"0".to_string()}))})).unwrap();
